@@ -103,6 +103,7 @@ static time_t sim_time(time_t *t) { if (t) *t = g_now; return g_now; }
 
 time_t __wrap_time(time_t *t) { if (t) *t = g_now; return g_now; }
 
+#ifndef VERIF_SIM_ONLY
 static KSI_CTX *ctx;
 #define MAXREQ 512
 
@@ -196,3 +197,4 @@ int main(void) {
 	KSI_CTX_free(ctx);
 	return 0;
 }
+#endif /* VERIF_SIM_ONLY */
